@@ -14,7 +14,7 @@ V = Path(__file__).resolve().parent.parent
 repo = os.environ.get("VERIF_REPO")
 if not repo or Path(repo).resolve() == Path("/repo"):
     sys.exit("set VERIF_REPO to a scratch copy of the repository (not /repo)")
-ALSO = {"C13-m2": ["C06"], "C10-m1": ["C09"], "C02-m2": ["C06"], "C06-m1": ["C07"], "C07-m1": ["C06"]}
+ALSO = {"C09-m3": ["C13"], "C13-m2": ["C06"], "C10-m1": ["C09"], "C02-m2": ["C06"], "C06-m1": ["C07"], "C07-m1": ["C06"]}
 env = dict(os.environ, GOFLAGS="-mod=mod", GOPROXY="off", GOSUMDB="off", GOTOOLCHAIN="local")
 work = Path(tempfile.mkdtemp(prefix="selftest-"))
 env.update(VERIF_BUILD=str(work / "build"), VERIF_EVIDENCE=str(work / "evidence"), VERIF_TMP=str(work))
